@@ -37,7 +37,7 @@ Definition is_pool (k : kind) : bool := match k with KPoolList | KPoolMap => tru
 Definition has_swap (k : kind) : bool :=
   match k with KList | KHashMap | KHashSet | KPoolList | KPoolMap => true | _ => false end.
 Definition has_assign (k : kind) : bool :=
-  match k with KList | KMap | KHashMap | KHashSet => true | _ => false end.
+  match k with KList | KMap | KMulti | KHashMap | KHashSet => true | _ => false end.
 
 Inductive event :=
 | ECons (id : nat) (s : slot)       (* constructed in place (default / argument constructor) *)
